@@ -426,6 +426,7 @@ func TestC01Upload(t *testing.T) {
 					out = rawHTTPShortPut(s, "/cas/"+d.Hash, hdr, len(T), T[:cut])
 					verdict = "reject"
 					corr += "+shortbody"
+					Lok = false // the transport was cut: no complete upload was delivered
 					waitIdle(s)
 				} else {
 					resp := cl.HTTPPut(s, "/cas/"+d.Hash, hdr, T)
@@ -502,6 +503,7 @@ func TestC01Upload(t *testing.T) {
 					out = outcome{ack: r.Code == codes.OK, info: fmt.Sprintf("aborted: %v", r.Err)}
 					verdict = "reject"
 					corr += "+abort"
+					Lok = false // the client went away: no complete upload was delivered
 					waitIdle(s)
 				} else {
 					r := cl.BSWrite(s, msgs, false)
